@@ -464,50 +464,79 @@ def F6(m, R):
         raise AnalysisError('anchor vanished: the optimiser block of to_str')
     std_call = next(x for x in ast.walk(opt) if isinstance(x, ast.Assign) and call_name(x.value) == 'settings_to_dict')
     NEW = norm(std_call.targets[0])
-    carried = next((norm(x.targets[0]) for x in opt.body if isinstance(x, ast.Assign) and norm(x.value) == NEW), None)
-    OLD = next((norm(x.targets[0]) for x in opt.body if isinstance(x, ast.Assign) and norm(x.value) == carried), None)
-    if carried is None or OLD is None:
+    # OLD: assigned in the block before the reduction from the loop-carried state; the carried state becomes NEW (or is NEW)
+    OLD = None
+    before = opt.body[:opt.body.index(std_call)] if std_call in opt.body else []
+    for x in before:
+        if isinstance(x, ast.Assign) and isinstance(x.value, ast.Name) and isinstance(x.targets[0], ast.Name):
+            c = x.value.id
+            if c == NEW or any(isinstance(y, ast.Assign) and norm(y.targets[0]) == c and norm(y.value) == NEW for y in opt.body):
+                OLD = x.targets[0].id
+    if OLD is None:
         R.undecided(f, opt, 'old/new state variables of the optimiser not recognised', construct='optimiser state')
         return
-    clear_loop = next((x for x in opt.body if isinstance(x, ast.For) and norm(x.iter) in ('%s.keys()' % OLD, OLD, '%s.items()' % OLD)), None)
-    comp = None
+    # clauses that contribute codes: loops with an append, or comprehensions; each: (source dict, key name, value name, conditions, element)
+    clauses = []
     for x in opt.body:
-        if isinstance(x, (ast.AugAssign, ast.Assign)) and isinstance(x.value, ast.ListComp) and norm(x.value.generators[0].iter) == '%s.items()' % NEW:
-            comp = x
+        if isinstance(x, ast.For) and norm(x.iter) in ('%s.keys()' % OLD, OLD, '%s.items()' % OLD, '%s.keys()' % NEW, NEW, '%s.items()' % NEW):
+            src = OLD if norm(x.iter).startswith(OLD) else NEW
+            K = norm(x.target) if not isinstance(x.target, ast.Tuple) else norm(x.target.elts[0])
+            Vn = norm(x.target.elts[1]) if isinstance(x.target, ast.Tuple) else None
+            clauses.append(('loop', src, K, Vn, x.body, None))
+        elif isinstance(x, (ast.AugAssign, ast.Assign)) and isinstance(x.value, ast.ListComp):
+            g = x.value.generators[0]
+            it = norm(g.iter)
+            if it in ('%s.keys()' % OLD, OLD, '%s.items()' % OLD, '%s.keys()' % NEW, NEW, '%s.items()' % NEW):
+                src = OLD if it.startswith(OLD) else NEW
+                K = norm(g.target) if not isinstance(g.target, ast.Tuple) else norm(g.target.elts[0])
+                Vn = norm(g.target.elts[1]) if isinstance(g.target, ast.Tuple) else None
+                clauses.append(('comp', src, K, Vn, g.ifs, x.value.elt))
+    if not clauses:
+        R.undecided(f, opt, 'no clause of the optimiser iterates the old or the new state', construct='optimiser state')
+        return
     for status in ('only-old', 'only-new', 'both-same', 'both-diff'):
         cons = 'optimiser diff %s' % status
         events = []
         problems = []
         try:
-            if clear_loop is not None and status != 'only-new':
-                K = norm(clear_loop.target) if not isinstance(clear_loop.target, ast.Tuple) else norm(clear_loop.target.elts[0])
+            for kind, src, K, Vn, body, elt in clauses:
+                if src == OLD and status == 'only-new':
+                    continue
+                if src == NEW and status == 'only-old':
+                    continue
+                val = _status_valuation(K, OLD, NEW, Vn or '?', status)
 
-                def visit(st, K=K):
-                    if isinstance(st, ast.Expr) and call_name(st.value) == 'append':
-                        a = norm(st.value.args[0])
-                        events.append('clear' if a == 'str(EFFECT_CLEAR_DICT[%s].value)' % K else a)
-                run_block(clear_loop.body, _status_valuation(K, OLD, NEW, '?', status), visit)
-            if comp is not None and status != 'only-old':
-                g = comp.value.generators[0]
-                K, V = [norm(x) for x in g.target.elts]
-                val = _status_valuation(K, OLD, NEW, V, status)
-                cond = True
-                for c in g.ifs:
-                    keyerr = False
-                    if status == 'only-new':
-                        for a in evaluated_atoms(c, val):
-                            if any(isinstance(x, ast.Subscript) and norm(x.value) == OLD for x in ast.walk(a)):
-                                problems.append('subscripts the old state with a key it does not have (KeyError)')
-                                keyerr = True
-                    r = eval_guard(c, val)
-                    if r is None:
-                        if keyerr:
-                            r = False
-                        else:
-                            raise Undecided('filter %s' % norm(c))
-                    cond = cond and r
-                if cond:
-                    events.append('new' if norm(comp.value.elt) == 'str(%s)' % V else norm(comp.value.elt))
+                def classify(a, K=K, Vn=Vn, src=src):
+                    if a == 'str(EFFECT_CLEAR_DICT[%s].value)' % K:
+                        return 'clear'
+                    if src == NEW and Vn and a == 'str(%s)' % Vn:
+                        return 'new'
+                    if a == 'str(%s[%s])' % (NEW, K):
+                        return 'new'
+                    return a
+                if kind == 'loop':
+                    def visit(st, classify=classify):
+                        if isinstance(st, ast.Expr) and call_name(st.value) == 'append':
+                            events.append(classify(norm(st.value.args[0])))
+                    run_block(body, val, visit)
+                else:
+                    cond = True
+                    for c in body:
+                        keyerr = False
+                        if status == 'only-new':
+                            for a in evaluated_atoms(c, val):
+                                if any(isinstance(x, ast.Subscript) and norm(x.value) == OLD for x in ast.walk(a)):
+                                    problems.append('subscripts the old state with a key it does not have (KeyError)')
+                                    keyerr = True
+                        r = eval_guard(c, val)
+                        if r is None:
+                            if keyerr:
+                                r = False
+                            else:
+                                raise Undecided('filter %s' % norm(c))
+                        cond = cond and r
+                    if cond:
+                        events.append(classify(norm(elt)))
         except Undecided as e:
             R.undecided(f, opt, str(e), construct=cons)
             continue
